@@ -42,6 +42,9 @@ Section Guards.
            end) ptype narrowed s
     end.
 
+  Fixpoint has_dup_s (l : list string) : bool :=
+    match l with [] => false | x :: r => str_mem x r || has_dup_s r end.
+
   (* guard 1: an alias "id" on a field that is not id *)
   Definition g_alias_id (ptype : string) (narrowed : bool) (s : sel) : bool :=
     match s with Field alias name _ _ _ => String.eqb alias "id" && negb (String.eqb name "id") | _ => false end.
@@ -104,6 +107,32 @@ Section Guards.
     | Spread _ _ => false
     end.
 
+  (* guard 7: a response key with a sub-selection selected more than once in one selection set: the
+     planner treats every occurrence on its own, and what both occurrences send to another
+     service is planned (and fetched) once per occurrence *)
+  Fixpoint occ_comp (fuel : nat) (path : string) (s : sel) {struct fuel} : list string :=
+    match fuel with
+    | O => []
+    | S fuel' =>
+        (fix one (path : string) (s : sel) {struct s} : list string :=
+           let many := fix many (path : string) (l : list sel) {struct l} : list string :=
+                         match l with [] => [] | x :: r => one path x ++ many path r end in
+           match s with
+           | Field alias name _ _ sub =>
+               let p := (path ++ "/" ++ rkey alias name)%string in
+               match sub with [] => [] | _ => p :: many p sub end
+           | Inline _ _ sub => many path sub
+           | Spread name _ =>
+               match frag_for name frags with
+               | Some f => flat_map (occ_comp fuel' path) (f_sel f)
+               | None => []
+               end
+           end) path s
+    end.
+
+  Definition g_repeated_composite (fuel : nat) (sels : list sel) : bool :=
+    has_dup_s (flat_map (occ_comp fuel "") sels).
+
   (* guard 4: the key id requested only under a type condition that narrows the enclosing type *)
   Definition g_id_narrowed (ptype : string) (narrowed : bool) (s : sel) : bool :=
     match s with Field alias name _ _ _ => narrowed && String.eqb (rkey alias name) "id" | _ => false end.
@@ -139,5 +168,6 @@ Section Guards.
     (if str_mem "id" varnames then [2] else []) ++
     (if g_directive_b fuel sels || existsb (exists_sel fuel g_cond_frag_without_id root false) sels then [3] else []) ++
     (if existsb (exists_sel fuel g_id_narrowed root false) sels then [4] else []) ++
-    (if g_fragments fuel sels then [5] else []).
+    (if g_fragments fuel sels then [5] else []) ++
+    (if g_repeated_composite fuel sels then [7] else []).
 End Guards.
